@@ -27,9 +27,12 @@ allvars == <<prog, frames, mem, log, status, why, result, steps, phase, slot, cu
 RBUF == 1   RFUEL == 8   RTMP == 9   RPA == 10   RTMP2 == 11
 IRegs == 2..7   DRegs == 12..14   FRegs == 15..16   LRegs == 17..18
 PRegs == 19..22   RPG == 23          \* pointers into the scratch area kept live over the whole body; address of gdat
+RIDX == 24 + (2 * NSlots)   \* long-lived index register (not Lean): inputs[1] & 1
+RVAL == 25 + (2 * NSlots)   \* long-lived rarely used value (not Lean): inputs[2] + 5
 MainRegTy == <<"i", "i", "i", "i", "i", "i", "i", "i", "i", "i", "i", "d", "d", "d", "f", "f", "ld", "ld", "i", "i", "i", "i", "i">>
              \o [i \in 1..NSlots |-> "i"]     \* one alloca pointer register per slot (24..): every such pointer has a single definition
              \o [i \in 1..NSlots |-> "i"]     \* one stack-mark register per slot (bstart/bend)
+             \o <<"i", "i">>                  \* RIDX, RVAL: long-lived, rarely used index (0 or 1) and value
 Reg(r) == [k |-> "reg", r |-> r]
 Imm(w) == [k |-> "imm", w |-> w]
 DRef == [k |-> "dref", b |-> 2]       \* address of the module's bss item gdat (memory block 2)
@@ -54,12 +57,14 @@ Prologue ==
        InsIn("mov", Reg(RTMP2), <<Imm(Zero64)>>)>>
   \o (IF Lean THEN <<>> ELSE
       [i \in 1..4 |-> InsIn("add", Reg(18 + i), <<Reg(RBUF), Imm(FromNat(120 + (8 * i)))>>)]      \* p_i = buf + 128, 136, 144, 152
+      \o <<InsIn("and", Reg(RIDX), <<Reg(2), Imm(One64)>>), InsIn("add", Reg(RVAL), <<Reg(3), Imm(FromNat(5))>>)>>
       \o <<InsIn("mov", Reg(RPG), <<DRef>>),
            InsIn("mov", Mem("i64", 0, RPG, 0, 1), <<Reg(2)>>), InsIn("mov", Mem("i64", 8, RPG, 0, 1), <<Reg(3)>>)>>)   \* gdat reset per call
 Epilogue ==
   (IF Lean THEN <<>> ELSE
    <<InsIn("add", Reg(7), <<Reg(7), Mem("i64", 0, RPG, 0, 1)>>), InsIn("xor", Reg(6), <<Reg(6), Mem("i64", 8, RPG, 0, 1)>>)>>   \* gdat is observable
-   \o [i \in 1..4 |-> InsIn("add", Reg(5), <<Reg(5), Mem("u8", 0, 18 + i, 0, 1)>>)])                \* every p_i is still live here
+   \o [i \in 1..4 |-> InsIn("add", Reg(5), <<Reg(5), Mem("u8", 0, 18 + i, 0, 1)>>)]                 \* every p_i is still live here
+   \o <<InsIn("add", Reg(4), <<Reg(4), Reg(RIDX)>>), InsIn("xor", Reg(3), <<Reg(3), Reg(RVAL)>>)>>)
   \o [i \in 1..6 |-> InsIn("mov", Mem("i64", 192 + (8 * (i - 1)), RBUF, 0, 1), <<Reg(i + 1)>>)]
   \o [i \in 1..3 |-> InsIn("dmov", Mem("d", 240 + (8 * (i - 1)), RBUF, 0, 1), <<Reg(11 + i)>>)]
   \o [i \in 1..2 |-> InsIn("fmov", Mem("f", 264 + (4 * (i - 1)), RBUF, 0, 1), <<Reg(14 + i)>>)]
@@ -199,18 +204,18 @@ Fmts == {"d", "f", "ld"}
 Pfx(fmt) == fmt
 
 KindsInt == {"ibin", "iun", "shift", "div", "br2", "br1", "loop", "ovf", "switch", "callg1", "callg2", "ext", "alloca", "jmpi", "idx",
-             "pld", "pst", "alloca2", "gcall", "dload", "lref1", "lref2", "addrst", "addrld", "addrcall", "bsblk", "rload", "rcall"}
+             "pld", "pst", "alloca2", "gcall", "dload", "lref1", "lref2", "addrst", "addrld", "addrcall", "bsblk", "rload", "rcall", "lref3", "ext2", "alloca3", "br1i", "divm", "pidxst"}
 KindsFp == {"fbin", "fcmp", "fbr", "i2f", "f2i", "fmovm", "f2f", "callg3", "addrfp", "callva"}
 (* "link": the constructs MIR_link rewrites (calls to inline, allocas, jumps and branch chains, memory operands) *)
 KindsLink == {"callg1", "callg2", "callg3", "ext", "alloca", "br2", "br1", "loop", "switch", "ibin", "idx", "jmpi", "ovf", "calla",
-              "callg6", "callg7", "gcall", "rblk", "blkv", "alloca2", "lref1", "lref2", "addrst", "addrcall", "bsblk", "callva", "rcall"}
+              "callg6", "callg7", "gcall", "rblk", "blkv", "alloca2", "lref1", "lref2", "addrst", "addrcall", "bsblk", "callva", "rcall", "lref3", "ext2", "alloca3", "br1i", "divm"}
 KindsOf == IF Vocab = "int" THEN KindsInt ELSE IF Vocab = "link" THEN KindsLink
          ELSE IF Vocab = "exec" THEN {"callg1", "callg2", "callg3", "calla", "ext", "icall", "icall5", "cb", "jmpi", "switch", "br2", "loop",
-                                      "ibin", "alloca", "fbin", "idx", "callg6", "callg7", "gcall", "rblk", "blkv", "callg12", "callg13", "callg14", "fmovm", "lref1", "lref2", "addrcall", "addrld", "bsblk", "callva", "rload", "rcall"}
+                                      "ibin", "alloca", "fbin", "idx", "callg6", "callg7", "gcall", "rblk", "blkv", "callg12", "callg13", "callg14", "fmovm", "lref1", "lref2", "addrcall", "addrld", "bsblk", "callva", "rload", "rcall", "lref3", "alloca3"}
          ELSE IF Vocab = "single" THEN (KindsInt \cup KindsFp \cup {"calla", "callg6", "callg7", "rblk", "blkv", "callg12", "callg13",
-                                                                      "callg14", "icall", "icall5"}) \ {"callg3", "lref1", "lref2", "callva"}   \* functions with at most one result
+                                                                      "callg14", "icall", "icall5"}) \ {"callg3", "lref1", "lref2", "lref3", "callva"}   \* functions with at most one result
          ELSE KindsInt \cup KindsFp \cup {"calla", "callg6", "callg7", "rblk", "blkv", "callg12", "callg13", "callg14"}
-NeedFull == {"pld", "pst", "gcall"}
+NeedFull == {"pld", "pst", "gcall", "pidxst"}
 KindsAbs == IF Abs /\ Vocab \in {"all", "link", "int"} THEN {"absld", "absst", "absd"} ELSE {}
 Kinds == (IF Lean THEN KindsOf \ NeedFull ELSE KindsOf) \cup KindsAbs
 
@@ -234,6 +239,12 @@ Holes(k) ==
     [] k = "jmpi" -> <<"fwd">>
     [] k = "lref1" -> <<"fwd">>
     [] k = "lref2" -> <<"fwd", "anyslot">>
+    [] k = "lref3" -> <<"fwd", "anyslot">>
+    [] k = "ext2" -> <<"extop", "extop", "idst", "isrc">>
+    [] k = "alloca3" -> <<"asz1", "asz2", "isrc", "ireg">>
+    [] k = "br1i" -> <<"br1op", "fwd", "bimm">>
+    [] k = "divm" -> <<"divop32", "idst", "isrcreg", "isrcreg", "imem32">>
+    [] k = "pidxst" -> <<"imemty4", "preg", "isrcreg", "isrcreg", "scale124">>
     [] k = "idx" -> <<"isrcreg", "imemty", "ireg", "scale">>
     [] k = "absld" -> <<"ireg", "imemty", "ascale", "aoff">>
     [] k = "absst" -> <<"imemty", "ascale", "aoff", "isrc">>
@@ -292,6 +303,12 @@ Dom(h) ==
     [] h = "i2fop" -> {"i2", "ui2"}
     [] h = "preg" -> PRegs
     [] h = "nva" -> 0..3
+    [] h = "extop" -> {"ext8", "ext16", "ext32", "uext8", "uext16", "uext32"}
+    [] h = "asz1" -> {4, 8, 12, 20} [] h = "asz2" -> {8, 16, 24, 40}
+    [] h = "bimm" -> {Imm(<<0, 0, 1, 0>>), Imm(<<0, 0, 3, 0>>), Imm(<<1, 0, 1, 0>>), Imm(Zero64), Imm(One64), Imm(MinS64), Imm(<<0, 32768, 0, 0>>)}
+    [] h = "divop32" -> {"divs", "mods", "udivs", "umods"}
+    [] h = "imem32" -> {"i32", "u32"}
+    [] h = "imemty4" -> {"i8", "u8", "i16", "u16", "i32", "u32"} [] h = "scale124" -> {1, 2, 4}      \* stays inside bytes 128..159
     [] h = "ascale" -> {2, 4, 8} [] h = "aoff" -> {128, 136, 144, 152}
     [] h = "aty" -> {[insn |-> "addr", ty |-> "i64"], [insn |-> "addr32", ty |-> "i32"], [insn |-> "addr32", ty |-> "u32"],
                      [insn |-> "addr16", ty |-> "i16"], [insn |-> "addr16", ty |-> "u16"], [insn |-> "addr8", ty |-> "i8"],
@@ -360,10 +377,29 @@ Render(k, v) ==
     \* computed jumps through label-reference data items of the function: the n-th lref slot owns bytes 8n..8n+7 of section lr_main;
     \* lref1: item `lref target` holds the label address; lref2: item `lref target, base` holds the distance from label base
     [] k = "lref1" -> <<InsIn("mov", Reg(RTMP), <<DRef4>>), InsIn("mov", Reg(RTMP2), <<Mem("i64", 8 * NLr, RTMP, 0, 1)>>),
-                        [op |-> "jmpi", s |-> <<Reg(RTMP2)>>, lr |-> [l |-> v[1], l2 |-> 0]]>>
+                        [op |-> "jmpi", s |-> <<Reg(RTMP2)>>, lr |-> [l |-> v[1], l2 |-> 0, d |-> 0]]>>
     [] k = "lref2" -> <<[op |-> "laddr", d |-> Reg(RTMP2), l |-> v[2]], InsIn("mov", Reg(RTMP), <<DRef4>>),
                         InsIn("mov", Reg(RTMP), <<Mem("i64", 8 * NLr, RTMP, 0, 1)>>), InsIn("add", Reg(RTMP2), <<Reg(RTMP2), Reg(RTMP)>>),
-                        [op |-> "jmpi", s |-> <<Reg(RTMP2)>>, lr |-> [l |-> v[1], l2 |-> v[2]]]>>
+                        [op |-> "jmpi", s |-> <<Reg(RTMP2)>>, lr |-> [l |-> v[1], l2 |-> v[2], d |-> 0]]>>
+    \* a biased distance table entry `lref target, base, 1` (0 would mean "no handler"): the bias is taken off before use
+    [] k = "lref3" -> <<[op |-> "laddr", d |-> Reg(RTMP2), l |-> v[2]], InsIn("mov", Reg(RTMP), <<DRef4>>),
+                        InsIn("mov", Reg(RTMP), <<Mem("i64", 8 * NLr, RTMP, 0, 1)>>), InsIn("sub", Reg(RTMP), <<Reg(RTMP), Imm(One64)>>),
+                        InsIn("add", Reg(RTMP2), <<Reg(RTMP2), Reg(RTMP)>>),
+                        [op |-> "jmpi", s |-> <<Reg(RTMP2)>>, lr |-> [l |-> v[1], l2 |-> v[2], d |-> 1]]>>
+    \* two extension insns in a row (the optimiser combines them)
+    [] k = "ext2" -> <<InsIn(v[1], Reg(RTMP), <<v[4]>>), InsIn(v[2], v[3], <<Reg(RTMP)>>)>>
+    \* adjacent allocas of constant sizes (link-time consolidation): both blocks are written at their ends and read back
+    [] k = "alloca3" -> <<[op |-> "alloca", d |-> Reg(PA), s |-> <<Imm(FromNat(v[1]))>>], [op |-> "alloca", d |-> Reg(RBS), s |-> <<Imm(FromNat(v[2]))>>],
+                          InsIn("mov", Mem("i32", v[1] - 4, PA, 0, 1), <<Imm(FromNat(77))>>), InsIn("mov", Mem("i64", 0, RBS, 0, 1), <<v[3]>>),
+                          InsIn("mov", Mem("i64", v[2] - 8, RBS, 0, 1), <<v[3]>>),
+                          InsIn("add", v[4], <<Mem("i32", v[1] - 4, PA, 0, 1), Mem("i64", 0, RBS, 0, 1)>>)>>
+    \* one-operand branches on constants (rewritten at link time)
+    [] k = "br1i" -> <<Br(v[1], v[2], <<v[3]>>)>>
+    \* 32-bit division insns with the divisor in memory and a dividend register with an arbitrary upper half
+    [] k = "divm" -> <<InsIn("or", Reg(RTMP), <<v[4], Imm(One64)>>), InsIn("mov", Mem("i32", 132, RBUF, 0, 1), <<Reg(RTMP)>>),
+                       InsIn(v[1], v[2], <<v[3], Mem(v[5], 132, RBUF, 0, 1)>>)>>
+    \* store through base + index * scale with a long-lived base register
+    [] k = "pidxst" -> <<InsIn("mov", Mem(v[1], 0, v[2], RIDX, v[5]), <<Reg(RVAL)>>)>>
     [] k = "idx" -> <<InsIn("and", Reg(RTMP), <<v[1], Imm(FromNat(3))>>),
                       InsIn("mov", v[3], <<Mem(v[2], 128, RBUF, RTMP, v[4])>>)>>
     [] k = "fbin" -> <<InsIn(v[1] \o v[2], v[3], <<v[4], v[5]>>)>>
@@ -471,7 +507,7 @@ CloseSlot ==
 
 Resolve(I) ==
   LET I1 == IF HasField(I, "l") THEN [I EXCEPT !.l = slotpc[@]] ELSE I
-      I2 == IF HasField(I1, "lr") THEN [I1 EXCEPT !.lr = [l |-> slotpc[@.l], l2 |-> IF @.l2 = 0 THEN 0 ELSE slotpc[@.l2]]] ELSE I1
+      I2 == IF HasField(I1, "lr") THEN [I1 EXCEPT !.lr = [l |-> slotpc[@.l], l2 |-> IF @.l2 = 0 THEN 0 ELSE slotpc[@.l2], d |-> @.d]] ELSE I1
   IN IF HasField(I2, "ls") THEN [I2 EXCEPT !.ls = [i \in 1..Len(@) |-> slotpc[@[i]]]] ELSE I2
 LrSeq == LET RECURSIVE Coll(_, _)
              Coll(i, acc) == IF i > Len(body) THEN acc
@@ -480,7 +516,7 @@ LrSeq == LET RECURSIVE Coll(_, _)
 LrCellsOf(lrs) == LET RECURSIVE Cat(_, _)
                      Cat(i, acc) == IF i > Len(lrs) THEN acc
                                     ELSE Cat(i + 1, acc \o [j \in 1..8 |-> IF lrs[i].l2 = 0 THEN [k |-> "l", i |-> j, f |-> 1, l |-> lrs[i].l]
-                                                                             ELSE [k |-> "ld", i |-> j, f |-> 1, a |-> lrs[i].l, b |-> lrs[i].l2]])
+                                                                             ELSE [k |-> "ld", i |-> j, f |-> 1, a |-> lrs[i].l, b |-> lrs[i].l2, d |-> lrs[i].d]])
                  IN Cat(1, <<>>)
 LrCells == LrCellsOf(LrSeq)
 (* the memory a program starts with: caller's buffer, module bss item gdat, data section gd, main's lref section *)
